@@ -490,34 +490,39 @@ Lemma dispatch_style_values :
     Some NMaven; Some NSpace; Some NNuget; Some NPypi; Some NComma ].
 Proof. vm_compute. reflexivity. Qed.
 
-(* the table has no other scheme name, and only pypi applies the pre-release gate *)
+(* the table has exactly the eleven scheme names (in any order, so that reordering the Go map
+   literal re-proves), and only pypi applies the pre-release gate *)
 Lemma dispatch_names_exact :
-  map sc_name scheme_table =
-  [ $"alpine"; $"cargo"; $"deb"; $"gem"; $"maven"; $"npm"; $"nuget"; $"pypi"; $"rpm";
-    $"generic"; $"golang" ].
-Proof. vm_compute. reflexivity. Qed.
+  forallb (fun n => mem n (map fst expected_dispatch)) (map sc_name scheme_table) = true /\
+  forallb (fun n => mem n (map sc_name scheme_table)) (map fst expected_dispatch) = true /\
+  length scheme_table = 11%nat.
+Proof. vm_compute. repeat split; reflexivity. Qed.
 
 Lemma find_scheme_in name l sc : find_scheme name l = Some sc -> In sc l /\ sc_name sc = name.
 Proof.
   induction l as [|s r IH]; simpl; [discriminate|].
   destruct (beq name (sc_name s)) eqn:B.
   - intros H. injection H as <-. apply beq_eq in B. split; [left; reflexivity|congruence].
-  - intros H. destruct (IH H) as [I E]. split; [right; assumption|assumption].
+  - intros H. destruct (IH H) as [I E]. split; [right; exact I|exact E].
+Qed.
+
+Lemma mem_In_bytes k l : mem k l = true -> In k l.
+Proof.
+  unfold mem. intros H. apply existsb_exists in H. destruct H as (x & Hx & E).
+  apply beq_eq in E. subst. exact Hx.
 Qed.
 
 Lemma dispatch_only_known name sc :
   find_scheme name scheme_table = Some sc -> In name (map fst expected_dispatch).
 Proof.
   intros H. apply find_scheme_in in H. destruct H as [I E]. subst name.
-  apply (in_map sc_name) in I. rewrite dispatch_names_exact in I.
-  simpl in I. simpl. intuition.
+  apply (in_map sc_name) in I.
+  destruct dispatch_names_exact as (F & _ & _).
+  rewrite forallb_forall in F. apply mem_In_bytes. apply F. exact I.
 Qed.
 
 Lemma dispatch_gate :
-  map (fun s => (sc_name s, sc_pypi_gate s)) scheme_table =
-  [ ($"alpine", false); ($"cargo", false); ($"deb", false); ($"gem", false); ($"maven", false);
-    ($"npm", false); ($"nuget", false); ($"pypi", true); ($"rpm", false); ($"generic", false);
-    ($"golang", false) ].
+  forallb (fun s => Bool.eqb (sc_pypi_gate s) (beq (sc_name s) $"pypi")) scheme_table = true.
 Proof. vm_compute. reflexivity. Qed.
 
 Print Assumptions dispatch_all.
